@@ -54,7 +54,7 @@ type c10Witness struct {
 func init() {
 	core.Register(&core.Check{
 		ID:   "C10",
-		Rule: "documents: PRNG-generated OpenAPI documents (half of them biased to legal-but-unusual features: exclusive flags without bounds, multipleOf 0, parameters and headers defined by content, recursive component schemas, path items without operations, discriminators, every format, extreme bounds, server variables incl. port) that load and pass document validation, plus every JSON/YAML file under the repository's testdata directories that loads and validates; per document and per router (gorillamux, legacy): grammar-built requests (declared template filled, declared parameters rendered) mutated with hostile methods, path segments, query keys (malformed deepObject brackets, negative/huge indexes, repeated keys), header/cookie values, Content-Types (malformed parameters, missing boundary) and bodies (truncated/deep JSON, broken forms/multipart/YAML/CSV, binary, nil vs empty, YAML renderings of the valid body with .nan/.inf at every numeric leaf), parameter names that are not identifiers (brackets, parentheses, regexp metacharacters, dots, spaces), all option sets, then FindRoute, ValidateRequest, ValidateResponse (hostile status/headers/body, nil body), ConvertErrors + error encoders, and both middleware modes. Distinct = (document hash, message hash); non-trivial = the message got past routing (a route was found).",
+		Rule: "documents: PRNG-generated OpenAPI documents (half of them biased to legal-but-unusual features: exclusive flags without bounds, multipleOf 0, parameters and headers defined by content, recursive component schemas, path items without operations, discriminators, every format, extreme bounds, server variables incl. port) that load and pass document validation, plus every JSON/YAML file under the repository's testdata directories that loads and validates; per document and per router (gorillamux, legacy): grammar-built requests (declared template filled, declared parameters rendered) mutated with hostile methods, path segments, query keys (malformed deepObject brackets, negative/huge indexes, repeated keys), header/cookie values, Content-Types (malformed parameters, missing boundary) and bodies (truncated/deep JSON, broken forms/multipart/YAML/CSV, binary, nil vs empty, YAML renderings of the valid body with .nan/.inf at every numeric leaf), parameter names that are not identifiers (brackets, parentheses, regexp metacharacters, dots, spaces), all option sets, then FindRoute, ValidateRequest, ValidateResponse (hostile status/headers/body, nil body), ConvertErrors + error encoders, and both middleware modes. Distinct = (document hash, message hash); non-trivial = the message got past routing (a route was found). Generated documents also carry type lists (empty / two members) and three servers with 1, 3 and 0 URL variables; half of the request bodies are streams without GetBody; a recursive schema carrying its own default is probed in a process of its own.",
 		Assumptions: []string{
 			"documents that fail Load or Validate are discarded (counted); only documents passing Validate are in scope",
 			"hang = one message consuming more than 30 CPU-seconds; memory blow-up = 8 GiB address-space limit hit (both reported with the message)",
